@@ -257,7 +257,7 @@ def main():
                     ncorpus += 1
     fx = fixed_cases()
     cases += fx
-    n = 1500 if c.tier == "quick" else 25000
+    n = 1500 if c.tier == "quick" else 6000
     for _ in range(n):
         cases.append(gen_case(rng, c.tier))
     for _ in range(n // 3):
@@ -341,7 +341,7 @@ def main():
         checker="mismatches list_eqb msgloop_code",
         monitor=monitor,
         nontrivial=nontrivial,
-        shard=300,
+        shard=600 if c.tier == "thorough" else 300,
         sample_of=lambda case, out: {"harness_line": line_of(case)[:400], "implementation": " ".join(out)[:400]},
     )
     c.cov["distribution"] = stats
